@@ -3,6 +3,7 @@ package main
 import (
 	"fmt"
 	"go/constant"
+	"go/token"
 	"go/types"
 	"sort"
 	"strings"
@@ -496,6 +497,146 @@ func runC13(c *Ctx) {
 		r.Check("R13.3", FuncName(rt.fn), "sequence of callback invocations (helpers flattened) equals the documented one", rt.fn.Pos(), strings.Join(got, "; ") == strings.Join(rt.want, "; "),
 			"got ["+strings.Join(got, "; ")+"] want ["+strings.Join(rt.want, "; ")+"]")
 	}
+	// the column whose cell callbacks fire for a cell is looked up from where the cell IS, every time: any function
+	// of the package that yields a *column for a cell hands back the table's own list entry at the cell's column
+	// number (a remembered pointer goes stale when the cell is copied into another row, column or table)
+	{
+		cellT := c.Named("", "Cell")
+		colsF := c.FieldOpt(at, "columns")
+		colNumF := c.FieldOpt(cellT, "columnNum")
+		nlook := 0
+		for _, fn := range c.ModFuncs("") {
+			if fn.Signature.Recv() == nil || namedOf(fn.Signature.Recv().Type()) != cellT || fn.Synthetic != "" || fn.Signature.Results().Len() != 1 {
+				continue
+			}
+			pt, isP := fn.Signature.Results().At(0).Type().(*types.Pointer)
+			if !isP || namedOf(pt.Elem()) == nil || namedOf(pt.Elem()).Obj().Name() != "column" {
+				continue
+			}
+			for i, ret := range returnsOf(fn) {
+				for _, v := range phiClosure(results(ret)[0]) {
+					if isNil(v) {
+						continue
+					}
+					nlook++
+					ok, why := false, "the column is not read from the table's list: "+v.String()
+					if u, isU := v.(*ssa.UnOp); isU && u.Op == token.MUL {
+						if ia, isIA := u.X.(*ssa.IndexAddr); isIA {
+							if f, _ := loadedField(ia.X); f == colsF && colsF != nil {
+								if f2, _ := loadedField(unwrap(ia.Index, true)); f2 == colNumF && colNumF != nil {
+									ok, why = true, ""
+								} else {
+									why = "the list is not indexed by the cell's own column number"
+								}
+							}
+						}
+						if f, _ := loadedField(v); f != nil && c.ownerOf(f) == "Cell" {
+							why = "the column is taken from a field remembered in the cell (" + f.Name() + "): a copy of the cell placed elsewhere keeps the old column"
+						}
+					}
+					r.Check("R13.3", FuncName(fn), fmt.Sprintf("return #%d: a cell's column is the table's list entry at the cell's column number, looked up afresh", i+1), ret.Pos(), ok, why)
+				}
+			}
+		}
+		r.Floor("R13.3", "column look-ups for a cell", nlook, 1)
+	}
+	// every exported operation that puts a cell-bearing row into a table announces it exactly as AddRow does (a
+	// shortcut that links the row in by hand skips the add-time callbacks registered for rows and cells)
+	{
+		rowsF := c.FieldOpt(at, "rows")
+		cellsF := c.FieldOpt(rowT, "cells")
+		var addRowWant []string
+		for _, rt := range roots {
+			if rt.fn != nil && rt.fn.Name() == "AddRow" {
+				addRowWant = rt.want
+			}
+		}
+		// a separator: a row built without a cell list
+		isSeparator := func(v ssa.Value) bool {
+			call, ok := unwrap(v, true).(*ssa.Call)
+			if !ok {
+				return false
+			}
+			f := call.Call.StaticCallee()
+			if f == nil || !inModule(f) || f.Blocks == nil {
+				return false
+			}
+			sep := true
+			eachInstr(f, func(in ssa.Instruction) {
+				if st, isSt := in.(*ssa.Store); isSt {
+					if fl, _ := storeField(st.Addr); fl == cellsF && !isNil(st.Val) {
+						sep = false
+					}
+				}
+				if cl, isCall := in.(ssa.CallInstruction); isCall && cl.Common().StaticCallee() != nil && inModule(cl.Common().StaticCallee()) {
+					sep = false // built by something else: not judged a separator
+				}
+			})
+			return sep
+		}
+		attachers := map[*ssa.Function]bool{}
+		if rowsF != nil && cellsF != nil {
+			for _, fs := range c.StoresTo(rowsF) {
+				if fs.Fresh {
+					continue
+				}
+				_, elems, ok := appendedElems(fs.St.Val)
+				if !ok {
+					continue
+				}
+				for _, e := range elems {
+					// the appended row may be the function's parameter: then its callers decide what it is
+					if par, isPar := unwrap(e, true).(*ssa.Parameter); isPar {
+						allSep := true
+						n := 0
+						for _, site := range c.Idx().callSitesOf(fs.Fn) {
+							n++
+							for k, p2 := range fs.Fn.Params {
+								if p2 == par && k < len(site.Call.Common().Args) && !isSeparator(site.Call.Common().Args[k]) {
+									allSep = false
+								}
+							}
+						}
+						if n == 0 || !allSep {
+							attachers[fs.Fn] = true
+						}
+						continue
+					}
+					if !isSeparator(e) {
+						attachers[fs.Fn] = true
+					}
+				}
+			}
+		}
+		nops := 0
+		if len(addRowWant) > 0 && len(attachers) > 0 {
+			wantS := strings.Join(addRowWant, "; ")
+			for _, g := range c.ModFuncs("") {
+				if g.Object() == nil || !g.Object().Exported() || g.Synthetic != "" || g.Parent() != nil {
+					continue
+				}
+				if g.Name() == "AddSeparator" || g.Name() == "AddHeaders" {
+					continue
+				}
+				reaches := false
+				for _, f := range pkgReach(g, 3) {
+					if attachers[f] {
+						reaches = true
+					}
+				}
+				if !reaches {
+					continue
+				}
+				// a row handed over by the caller (AddRow(row)) or one the operation builds itself: either way the
+				// announcement must be there
+				got := strings.Join(flatten(g, nil, 0, 0, map[*ssa.Function]bool{}), "; ")
+				nops++
+				r.Check("R13.3", FuncName(g), "adding a row to the table fires the documented add-time callbacks (as AddRow does)", g.Pos(), strings.Contains(got, wantS),
+					"this operation links a row into the table without announcing it: got ["+got+"], AddRow fires ["+wantS+"]")
+			}
+		}
+		r.Floor("R13.3", "exported operations that add a row", nops, 2)
+	}
 	// callbacks fired from anywhere else have no documented event
 	for _, s := range sites {
 		if !covered[s.fn] {
@@ -560,6 +701,49 @@ func runC13(c *Ctx) {
 			}
 			r.Check("R13.3", FuncName(s.fn), fmt.Sprintf("%s %s is fired unconditionally for its target", s.role, s.time), s.in.Pos(), false, "guarded by "+cf.Cond.String()+": some targets would be skipped")
 		}
+	}
+	// per site inside a loop at render time: the loop visits EVERY column / row / cell (the defaults column 0 is a
+	// column like any other: callbacks registered on it fire too)
+	{
+		at := c.Named("", "ATable")
+		rowT := c.Named("", "Row")
+		lists := map[string]*types.Var{"column": c.FieldOpt(at, "columns"), "Row": c.FieldOpt(at, "rows"), "Cell": c.FieldOpt(rowT, "cells")}
+		colAcc := c.MethodOpt(at, true, "Column")
+		ncolAcc := c.MethodOpt(at, true, "NColumns")
+		renderFns := map[*ssa.Function]bool{}
+		if irc := c.MethodOpt(at, true, "InvokeRenderCallbacks"); irc != nil {
+			for _, f := range pkgReach(irc, 3) {
+				renderFns[f] = true
+			}
+		}
+		nloops := 0
+		for _, s := range sites {
+			if !renderFns[s.fn] || s.depth == 0 {
+				continue
+			}
+			var target ssa.Value
+			kind := ""
+			switch {
+			case s.role == "rows":
+				if call, ok := s.in.(*ssa.Call); ok && len(call.Call.Args) > 0 {
+					target, kind = call.Call.Args[0], "Row"
+				}
+			case strings.HasSuffix(s.role, "/column") && strings.HasPrefix(s.role, "column/"):
+				target, kind = s.owner, "column"
+			case strings.HasSuffix(s.role, "/Cell") && strings.HasPrefix(s.role, "cell/"):
+				target, kind = s.owner, "Cell"
+			}
+			if target == nil || lists[kind] == nil {
+				continue
+			}
+			rec, full, why := elemOfFullLoop(c, s.fn, target, lists[kind], colAcc, ncolAcc)
+			if !rec {
+				continue
+			}
+			nloops++
+			r.Check("R13.3", FuncName(s.fn), fmt.Sprintf("the loop around the %s %s invocation visits every %s of the list (index 0 included)", s.role, s.time, kind), s.in.Pos(), full, why)
+		}
+		r.Floor("R13.3", "render-time loops whose coverage is decided", nloops, 1)
 	}
 	// per site: target type matches the role; live object
 	for _, s := range sites {
@@ -1043,3 +1227,100 @@ func logicalInvoke(in ssa.Instruction, invoke *ssa.Function, ws map[*ssa.Functio
 	}
 	return out, true
 }
+
+// elemOfFullLoop: v is the element, at the loop's index, of the slice field `list` - and that index covers the
+// whole list. Recognised forms: list[i] / &list[i] with list loaded from the field in this function, and (for
+// columns) the accessor Column(n) with n running from 0 up to and including NColumns().
+func elemOfFullLoop(c *Ctx, fn *ssa.Function, v ssa.Value, list *types.Var, colAcc, ncolAcc *ssa.Function) (recognised, full bool, why string) {
+	v = unwrap(v, true)
+	var ia *ssa.IndexAddr
+	switch x := v.(type) {
+	case *ssa.UnOp:
+		if x.Op == token.MUL {
+			ia, _ = x.X.(*ssa.IndexAddr)
+		}
+	case *ssa.IndexAddr:
+		ia = x
+	case *ssa.Call:
+		if colAcc == nil || x.Call.StaticCallee() != colAcc || len(x.Call.Args) != 2 {
+			return false, false, ""
+		}
+		// Column(n): n = 0, 1, .., NColumns()
+		p := c.Idx().proverFor(fn)
+		n := p.resolve(x.Call.Args[1])
+		phi, isPhi := n.(*ssa.Phi)
+		if !isPhi || !p.isLoopPhi(phi) {
+			return true, false, "the column number is not the loop's counter"
+		}
+		hdr := phi.Block()
+		for k, pred := range hdr.Preds {
+			if hdr.Dominates(pred) {
+				e := p.linOf(phi.Edges[k]).sub(linTerm(p.canon(phi)))
+				if !e.isConst() || e.k != 1 {
+					return true, false, "the column number does not step by one"
+				}
+			} else if k0, ok := constInt(phi.Edges[k]); !ok || k0 != 0 {
+				return true, false, "the loop over Column(n) does not start at column 0, the defaults column: callbacks registered on it are never invoked"
+			}
+		}
+		iff, ok := hdr.Instrs[len(hdr.Instrs)-1].(*ssa.If)
+		if !ok {
+			return true, false, "the loop has no header test"
+		}
+		b, isB := iff.Cond.(*ssa.BinOp)
+		if !isB {
+			return true, false, "the loop bound is not a comparison with NColumns()"
+		}
+		isNC := func(y ssa.Value) bool {
+			cl, ok := y.(*ssa.Call)
+			return ok && ncolAcc != nil && cl.Call.StaticCallee() == ncolAcc
+		}
+		switch {
+		case b.Op == token.LEQ && b.X == ssa.Value(phi) && isNC(b.Y):
+			return true, true, ""
+		case b.Op == token.GEQ && b.Y == ssa.Value(phi) && isNC(b.X):
+			return true, true, ""
+		}
+		return true, false, "the loop over Column(n) does not run up to and including NColumns()"
+	}
+	if ia == nil {
+		return false, false, ""
+	}
+	f, _ := loadedField(ia.X)
+	if f != list {
+		return false, false, ""
+	}
+	if isFullRangeIndex(c, fn, ia.Index, ia.X) && !condInsideLoopSkipping(ia.Block()) {
+		return true, true, ""
+	}
+	// the bound may come from another load of the same field of the same object (for i := range t.columns { t.columns[i] }),
+	// nothing in this function writing the field
+	p := c.Idx().proverFor(fn)
+	_, base := loadedField(ia.X)
+	written := false
+	var loads []ssa.Value
+	eachInstr(fn, func(in ssa.Instruction) {
+		if st, ok := in.(*ssa.Store); ok {
+			if f2, _ := storeField(st.Addr); f2 == list {
+				written = true
+			}
+		}
+		if u, ok := in.(*ssa.UnOp); ok {
+			if f2, b2 := loadedField(u); f2 == list && base != nil && b2 != nil && p.canon(b2) == p.canon(base) {
+				loads = append(loads, u)
+			}
+		}
+	})
+	if !written {
+		for _, l := range loads {
+			if isFullRangeIndex(c, fn, ia.Index, l) {
+				return true, true, ""
+			}
+		}
+	}
+	return true, false, "the index does not run over the whole list: some entries are never visited"
+}
+
+// condInsideLoopSkipping: placeholder for loops whose body is entered conditionally; the unconditional-firing rule
+// above already reports guarded invocations, so nothing more is required here.
+func condInsideLoopSkipping(b *ssa.BasicBlock) bool { return false }
